@@ -39,6 +39,7 @@ pub struct St {
     pub eof: bool,                        // after the queue drains: Ok(0)
     pub reset: bool,                      // after the queue drains: ECONNRESET
     pub read_plan: VecDeque<usize>,       // per read call: max bytes (0 = one forced WouldBlock)
+    pub read_cycle: Vec<usize>,           // used (cyclically) once read_plan is exhausted
     pub outbound: Vec<u8>,
     pub budget: Option<usize>,            // None = unlimited
     pub write_plan: VecDeque<usize>,      // per write call: max bytes accepted (0 = one WouldBlock)
@@ -76,6 +77,7 @@ pub fn pair() -> (Net, MockStream) {
         eof: false,
         reset: false,
         read_plan: VecDeque::new(),
+        read_cycle: Vec::new(),
         outbound: Vec::new(),
         budget: None,
         write_plan: VecDeque::new(),
@@ -238,7 +240,11 @@ impl Read for MockStream {
         let net = &self.net;
         let mut s = net.lock();
         s.nreads += 1;
-        let plan = s.read_plan.pop_front();
+        let mut plan = s.read_plan.pop_front();
+        if plan.is_none() && !s.read_cycle.is_empty() {
+            let k = (s.nreads as usize) % s.read_cycle.len();
+            plan = Some(s.read_cycle[k]);
+        }
         if plan == Some(0) && !s.inbound.is_empty() {
             // forced would-block with data pending: re-arm so a new readable event follows
             if s.log_io {
